@@ -10,6 +10,7 @@ pub trait UpdateFromDownlink<T> {
 
 impl UpdateFromDownlink<DF> for Plane {
     fn update_from_downlink(&mut self, dl: &DF) {
+        self.timestamp = chrono::Utc::now();
         match dl {
             DF::SRT(v) => self.update_from_downlink(v),
             DF::EXT(v) => self.update_from_downlink(v),
